@@ -49,7 +49,30 @@ fn one_case(ctx: &Ctx, case: u64, l: &mut Local) {
     let s = pipeline::gen_scenario(ctx, &mut r, cfg.clone());
     let issued = match pipeline::issue_scenario(&s) {
         Ok(i) if i.loc.complaints.is_empty() => i,
-        _ => {
+        Ok(i) => {
+            // the locator cannot map paths to disclosures (C05 reports why); the one thing that can
+            // still be asserted without the map: the complete genuine list gives Err or exactly U
+            l.count("locator-complaints.control-only");
+            let jwk = cfg.holder.map(|(a, i)| keys::holder_jwk_json_canonical(a, i));
+            let v = api::verify(&i.sd_jwt, &Resolver::Fixed(cfg.alg, 0), None, cfg.fmt);
+            l.evals += 1;
+            match v.out {
+                Outcome::Ok(c) if c != model::with_cnf(s.u.clone(), jwk.as_ref()) => {
+                    let (at, e, g, _) = model::first_diff(&model::with_cnf(s.u.clone(), jwk.as_ref()), &c).unwrap_or_default();
+                    l.violate(Violation {
+                        subcheck: "wrong-view".into(),
+                        class: "control".into(),
+                        observed: "all genuine disclosures presented, verifier returned claims other than the original".into(),
+                        case,
+                        detail: json!({"config": cfg.describe(), "claims": s.u, "strategy": s.strat.describe(), "at": at, "expected_there": e, "got_there": g}),
+                    });
+                }
+                p @ Outcome::Panic(..) => l.violate(Violation { subcheck: "panic".into(), class: "control".into(), observed: p.panic_signature().unwrap(), case, detail: json!({"claims": s.u}) }),
+                _ => {}
+            }
+            return;
+        }
+        Err(_) => {
             l.count("skipped.issue");
             return;
         }
